@@ -154,7 +154,7 @@ int WorldQ::spawner_stub(int chan) {
       SpawnCmd cmd; cmd.chan = chan; cmd.delnum = (unsigned char)inbuf[0]; cmd.messid = inbuf.substr(1, a - 1);
       cmd.sender = inbuf.substr(a + 1, b - a - 1); cmd.recip = inbuf.substr(b + 1, c - b - 1); cmd.t = kk->clock; cmd.num = 0;
       inbuf.erase(0, c + 1); cmds_seen++;
-      Attempt at; at.v = default_verdict; at.text = "default";
+      Attempt at; at.v = default_verdict; at.text = "default"; at.lat = plan->knobs.geti("default_lat", 0);
       auto it = scripts.find(cmd.recip);
       if (it != scripts.end()) { int &no = attempt_no[cmd.recip]; if ((size_t)no < it->second.size()) at = it->second[(size_t)no]; no++; }
       Pending p; p.at = kk->clock + at.lat; p.delnum = cmd.delnum; p.order = ord++; p.die = at.die;
